@@ -1,14 +1,42 @@
 # Property table of ./check: which Coq property file and which correspondence engines decide a property.
 # ENGINES: per engine the case budgets per tier (search_n is used by the directed search that runs when a
-# proof obligation or a tie no longer checks).
+# proof obligation or a tie no longer checks).  A case description may carry "props": [...] — then a failing
+# case is attributed only to those properties; without it, to every property the engine serves.
 
 ENGINES = {
-    'bits': dict(quick_n=600, thorough_n=20000, search_n=20000),
+    'bits':     dict(quick_n=600,  thorough_n=20000, search_n=20000),
+    'frameops': dict(quick_n=2600, thorough_n=40000, search_n=12000),
+    'sort':     dict(quick_n=1000, thorough_n=6000,  search_n=3000),
+    'group':    dict(quick_n=1000, thorough_n=12000, search_n=12000),
+    'strings':  dict(quick_n=3000, thorough_n=40000, search_n=40000),
+    'csv':      dict(quick_n=3000, thorough_n=60000, search_n=20000),
+    'ryu':      dict(quick_n=3400, thorough_n=40000, search_n=40000),
+    'sql':      dict(quick_n=800,  thorough_n=8000,  search_n=8000),
+    'iofault':  dict(quick_n=4000, thorough_n=40000, search_n=40000),
+    'share':    dict(quick_n=400,  thorough_n=5000,  search_n=5000),
+    'conc':     dict(quick_n=300,  thorough_n=3000,  search_n=3000, race=True),
 }
 
+STD = ['Go semantics of slices, maps, integer and IEEE-754 operations as modelled; behaviour of the Go standard library where it enters as a recorded oracle table']
+
 PROPS = {
-    'C08': dict(engines=['bits'], translator_keys=['internal/strings'],
-                trusted_base=[], assumptions=[]),
-    'C17': dict(engines=['bits'], translator_keys=['internal/ecolumn'],
-                trusted_base=[], assumptions=[]),
+    'C01': dict(engines=['share', 'frameops'], translator_keys=[], uses_gen=False, trusted_base=STD, assumptions=['callbacks do not keep or write through their arguments (reading decision 9)']),
+    'C02': dict(engines=['frameops'], translator_keys=['kernel', 'table', 'filter'], trusted_base=STD, assumptions=['like/ilike matcher and user predicates enter as recorded tables']),
+    'C03': dict(engines=['sort'], translator_keys=['internal/sort'], trusted_base=STD, assumptions=[]),
+    'C04': dict(engines=['group', 'frameops'], translator_keys=['internal/grouper'], trusted_base=STD + ['runtime.memhash is an arbitrary function of (bytes, seed)'], assumptions=[]),
+    'C05': dict(engines=['group'], translator_keys=['internal/grouper'], trusted_base=STD + ['runtime.memhash is an arbitrary function of (bytes, seed)'], assumptions=[]),
+    'C06': dict(engines=['frameops'], translator_keys=['table'], trusted_base=STD, assumptions=['user functions enter as tables over the cells of the case']),
+    'C07': dict(engines=['frameops'], translator_keys=[], uses_gen=False, trusted_base=STD, assumptions=['context functions enter as tables over the cells of the case']),
+    'C08': dict(engines=['bits', 'frameops'], translator_keys=['internal/strings'], trusted_base=STD, assumptions=[]),
+    'C09': dict(engines=['frameops'], translator_keys=[], uses_gen=False, trusted_base=STD, assumptions=[]),
+    'C10': dict(engines=['frameops'], translator_keys=[], uses_gen=False, trusted_base=STD, assumptions=[]),
+    'C11': dict(engines=['conc'], translator_keys=[], uses_gen=False, trusted_base=STD + ['Go race detector (go build -race)'], assumptions=['the Go memory model itself is not modelled']),
+    'C12': dict(engines=['csv'], translator_keys=['internal/fastcsv', 'internal/io'], trusted_base=STD, assumptions=[]),
+    'C13': dict(engines=['csv'], translator_keys=['internal/fastcsv', 'internal/io'], trusted_base=STD + ['encoding/csv Writer transcription (Go 1.23)', 'strconv FormatFloat/ParseFloat round trip hypothesis'], assumptions=['float_roundtrip']),
+    'C14': dict(engines=['strings'], translator_keys=['internal/strings'], trusted_base=STD, assumptions=[]),
+    'C15': dict(engines=['iofault'], translator_keys=[], uses_gen=False, trusted_base=STD + ['database/sql, bufio, encoding/csv, encoding/json error propagation as modelled'], assumptions=[]),
+    'C16': dict(engines=['ryu'], translator_keys=['internal/ryu'], trusted_base=STD, assumptions=[]),
+    'C17': dict(engines=['bits', 'frameops'], translator_keys=['internal/ecolumn'], trusted_base=STD, assumptions=[]),
+    'C18': dict(engines=['strings', 'frameops'], translator_keys=['internal/strings', 'internal/scolumn', 'internal/ecolumn'], trusted_base=STD + ['Go regexp is an oracle', 'unicode.ToUpper is an arbitrary rune map'], assumptions=[]),
+    'C19': dict(engines=['sql'], translator_keys=[], uses_gen=False, trusted_base=STD + ['database/sql default value conversion'], assumptions=[]),
 }
